@@ -191,6 +191,23 @@ func buildManifest(env *Env, v Variant) ([]*Artifact, error) {
 			semSkipped = append(semSkipped, a.ID()+": "+n)
 		}
 	}
+	// namespace re-binding on every element (xmlnsrebind.go)
+	if root, err := xParse(s); err == nil {
+		protectedAt := func(path []string) bool {
+			mode := xProtected
+			for i := range path {
+				if m := manifestDecide(path[:i+1]); m != xInherit {
+					mode = m
+				}
+			}
+			return mode == xProtected
+		}
+		w, cnt := xmlNsRebind(string(s), root, protectedAt)
+		a.Semantic = append(a.Semantic, w...)
+		a.Notes = append(a.Notes, fmt.Sprintf("namespace re-binding: %d elements, %d cases, %d asserted", cnt.Elements, cnt.Cases, cnt.Asserted))
+	} else {
+		semSkipped = append(semSkipped, a.ID()+": namespace re-binding: "+err.Error())
+	}
 	// certificates of the inner signature
 	{
 		x := string(s)
